@@ -11,7 +11,7 @@ LEVEL = "exploration"
 RULE = (
     "operation sequences over {value, error, call, is_computed, set_value, set_error, reset_unsafe, subscribe a "
     "well-behaved callback, subscribe a raising callback} applied to every future kind {Future(ok provider), "
-    "Future(raising provider), Future(provider raising FutureIsAlreadyComputed about another future), ConstFuture, ErrorFuture, AsyncTask returning / raising / blocked on a batch item, "
+    "Future(raising provider), Future(provider raising FutureIsAlreadyComputed about another future), ConstFuture, ErrorFuture, AsyncTask returning / raising / blocked on a batch item / failed by a context that cannot be re-activated when the scheduler wakes it, "
     "batch with succeeding / raising flush, batch item set / errored / left unset}: ALL sequences up to length 4 "
     "(thorough: 5) plus seeded random sequences up to length 15, plus scheduler-driven scenarios in which one lazily computed future is listed twice in a yield or awaited by a parent and its child (10 shapes x ok/raising provider), on both builds. Each operation's result or exception "
     "(type, and identity of error instances) is compared with an explicit reference state machine {uncomputed, value, "
@@ -35,6 +35,7 @@ KINDS = [
     "task_ok",
     "task_raise",
     "task_item",
+    "task_ctx_resume_fails",
     "batch_ok",
     "batch_raise",
     "item_ok",
@@ -94,6 +95,8 @@ class Model(object):
             return ("exc", ("UserErr", ("task",)))
         if k == "task_item":
             return ("val", ("task", ("iv", 0)))
+        if k == "task_ctx_resume_fails":
+            return ("exc", ("UserErr", ("resume",)))
         if k == "batch_ok":
             return ("val", None)
         if k == "batch_raise":
@@ -167,6 +170,31 @@ def make_object(kind, env):
         def f():
             env["computes"] += 1
             v = yield C10Item(rt, "ok")
+            return ("task", v)
+
+        return f.asynq()
+    if kind == "task_ctx_resume_fails":
+        # a task suspended inside a context that cannot be re-activated when the scheduler wakes the task: the
+        # context's error completes the task - once
+        from asynq import AsyncContext
+
+        class Lease(AsyncContext):
+            def __init__(self):
+                self.n = 0
+
+            def resume(self):
+                self.n += 1
+                if self.n > 1:
+                    raise UserErr(("resume",))
+
+            def pause(self):
+                pass
+
+        @A()
+        def f():
+            env["computes"] += 1
+            with Lease():
+                v = yield C10Item(rt, "ok")
             return ("task", v)
 
         return f.asynq()
